@@ -225,17 +225,15 @@ def mon_untripped(case, lines):
                 return 'thread %d stored false to line obj%d at trace line %d: a trip line is one-way' % (t, o, i)
             tripped.setdefault(o, i)
         elif k == K['LOAD']:
-            last_load[t] = o
+            last_load[t] = (o, v)
             if v != 0:
                 tripped.setdefault(o, i)
             elif o in tripped:
                 return 'thread %d read false from line obj%d at trace line %d after it was tripped/seen true at line %d' % (t, o, i, tripped[o])
         elif k == K['RET'] and cur.get(t) == IS_TRIPPED and t in last_load:
-            o2 = last_load[t]
-            if v == 0 and o2 in tripped and tripped[o2] < i - 1:
-                return 'isTripped of thread %d returned false at trace line %d although line obj%d was tripped at line %d' % (t, i, o2, tripped[o2])
-            if v == 1 and o2 not in tripped:
-                return 'isTripped of thread %d returned true at trace line %d but line obj%d was never stored to' % (t, i, o2)
+            o2, v2 = last_load[t]
+            if (v != 0) != (v2 != 0):
+                return 'isTripped of thread %d returned %d at trace line %d but the line obj%d held %d' % (t, v, i, o2, v2)
     return None
 
 
@@ -318,7 +316,7 @@ def mon_mo_weakened(case, lines):
             return ('trip-line store logged with memory order %d (weaker than release) at trace line %d. Model-level failing history '
                     '(theorem tw_relaxed_refuted, store side): t0: trigger on line; write datum; destroy trigger | t1: detector; '
                     'isTripped reads true; read datum  ==> data race (no happens-before from the write to the read)' % (m, i))
-        if k == K['LOAD'] and m not in (MO_ACQUIRE, MO_ACQ_REL, MO_SEQ_CST, MO_CONSUME + 100):
+        if k == K['LOAD'] and m not in (MO_ACQUIRE, MO_ACQ_REL, MO_SEQ_CST):
             return ('detector load logged with memory order %d (weaker than acquire) at trace line %d. Model-level failing history '
                     '(theorem tw_relaxed_refuted, load side): t0: trigger on line; write datum; destroy trigger | t1: detector; '
                     'isTripped reads true; read datum  ==> data race (no happens-before from the write to the read)' % (m, i))
